@@ -497,7 +497,9 @@ func (g *Gen) collect(d int, valVar string) Clause {
 			}
 		}
 		// the default projection { v: v } needs the loop variable to be visible
-		if !valVisible || g.pick(2) == 0 {
+		// (when it is hidden, e.g. by an earlier COLLECT of the same loop, the default form is
+		// ill-scoped: generated now and then when references outside the visible set are allowed)
+		if (!valVisible && !(g.Wild > 0 && g.pick(3) == 0)) || (valVisible && g.pick(2) == 0) {
 			g.inSort++
 			c.Tail.Proj = g.sortKey(d)
 			g.inSort--
